@@ -16,6 +16,7 @@ tools/rs2lean_fn.py — regenerates Lean definitions from the SOURCE TEXT of sel
   fn:trans    /repo/yui-matrix/src/sparse/trans.rs                 -> lean/Yuiv/Gen/TransFn.lean    (Props/C13GenT.lean)
   fn:spvec    /repo/yui-matrix/src/sparse/sp_vec.rs                -> lean/Yuiv/Gen/SpVecFn.lean    (Props/C13GenV.lean)
   fn:schur    /repo/yui-matrix/src/sparse/schur.rs                 -> lean/Yuiv/Gen/SchurFn.lean    (Props/C08Gen.lean)
+  fn:reducer  /repo/yui-homology/src/utils/chain_reducer.rs        -> lean/Yuiv/Gen/ReducerFn.lean  (Props/C08GenR.lean)
 
 Additions for fn:misc / fn:snf (see the target entries in TARGETS and Yuiv/Model/RustIter.lean, RustDense.lean):
 free functions of a file (`free_fns`), closures as auxiliary definitions (captured variables become parameters),
@@ -85,7 +86,7 @@ Semantics emitted
     on fuel (`Res.err` when it runs out): the constant `loopFuel`, or — target option `fuel_param` — an explicit first
     argument `fuel` of every function that (transitively) contains a loop.
 
-Usage: rs2lean_fn.py [fn:bitseq|fn:ratio|fn:intext|fn:qint|fn:ff|fn:misc|fn:snf|fn:lll|fn:homcalc|fn:triang|fn:spmat|fn:trans|fn:spvec|fn:schur]... [--src FILE]... [--out FILE]   (none = all)
+Usage: rs2lean_fn.py [fn:bitseq|fn:ratio|fn:intext|fn:qint|fn:ff|fn:misc|fn:snf|fn:lll|fn:homcalc|fn:triang|fn:spmat|fn:trans|fn:spvec|fn:schur|fn:reducer]... [--src FILE]... [--out FILE]   (none = all)
   `--src` (once per source file of the target, in its order) and `--out` need exactly one target.
 Exit status 0: every selected generated file is up to date or was rewritten; 1: for some target something in a
 REQUIRED function (or in the item structure) is outside the subset — `rs2lean_fn: cannot translate: <what>` is printed
@@ -338,6 +339,55 @@ TARGETS = {
                "`Yuiv/Props/C08Gen.lean` proves them equal to the hand-written model `C12.schur` / `C12.computeSchur`."],
         required=_req("Schur", ("from_partial_triangular", "compute_schur", "complement", "trans_src", "trans_tgt",
                                 "disassemble"))),
+    "reducer": dict(
+        src="/repo/yui-homology/src/utils/chain_reducer.rs", out="ReducerFn.lean", ns="Yuiv.GenReducer", scalar="AR",
+        macros=False, fuel_param=True, nat_usize=True, free_fns=True, no_derive=True,
+        struct_params="(I M V T P S : Type)", struct_param_name="I M V T P S",
+        abs=dict(
+            types=[(r"SpMat<\w+>", "M"), (r"SpVec<\w+>", "V"), (r"Trans<\w+>", "T"), (r"PermOwned|sprs::PermOwned", "P"),
+                   (r"Schur<\w+>", "S"), (r"PivotType", "PivotType"), (r"PivotCondition", "PivotCondition"),
+                   (r"TriangularType", "TriangularType")],
+            lean={"M": "M", "V": "V", "T": "T", "P": "P", "S": "S", "I": "I"},
+            degree_params=["I"],
+            extern_enums={"PivotType": ["Rows", "Cols"], "PivotCondition": ["One", "AnyUnit"],
+                          "TriangularType": ["Upper", "Lower"]},
+            sig_struct="{I M V T P S : Type} [DecidableEq I] [Add I] [Sub I] (K : ROps M V T P S)",
+            sig_free="{M V T P S : Type} (K : ROps M V T P S)",
+            methods={("M", "nrows", 0): ("K.nrows", [], "usize", False), ("M", "ncols", 0): ("K.ncols", [], "usize", False),
+                     ("M", "is_zero", 0): ("K.is_zero", [], "bool", False),
+                     ("M", "permute", 2): ("K.permute", ["P", "P"], "M", True),
+                     ("M", "divide4", 1): ("K.divide4", ["(usize,usize)"], "(M,M,M,M)", True),
+                     ("P", "dim", 0): ("K.perm_dim", [], "usize", False), ("P", "at", 1): ("K.perm_at", ["usize"], "usize", True),
+                     ("P", "view", 0): (None, [], "P", False), ("P", "clone", 0): (None, [], "P", False),
+                     ("V", "dim", 0): ("K.vdim", [], "usize", False), ("V", "permute", 1): ("K.vpermute", ["P"], "V", True),
+                     ("V", "split", 1): ("K.vsplit", ["usize"], "(V,V)", True),
+                     ("S", "disassemble", 0): ("K.schur_disassemble", [], "(M,Option<T>,Option<T>)", False)},
+            closure_methods={("M", "extract"): ("K.extract", "(usize,usize)", ["usize", "usize"], "Option<(usize,usize)>", "M"),
+                             ("V", "extract"): ("K.vextract", "usize", ["usize"], "Option<usize>", "V")},
+            mut_methods={("T", "append_perm", 1): ("K.trans_append_perm", ["P"]), ("T", "merge", 1): ("K.trans_merge", ["T"])},
+            statics={("Schur", "from_partial_triangular"): ("K.schur_new", ["TriangularType", "M", "usize", "bool"], "S", True),
+                     ("Trans", "id"): ("K.trans_id", ["usize"], "T", False)},
+            free={"find_pivots": ("K.find_pivots", ["M", "PivotType", "PivotCondition"], "List<(usize,usize)>", True),
+                  "perms_by_pivots": ("K.perms_by_pivots", ["M", "List<(usize,usize)>"], "(P,P)", True),
+                  "solve_triangular_vec": ("K.solve_triangular_vec", ["TriangularType", "M", "V"], "V", True)},
+            binops={("-", "V", "V"): ("K.vsub", "V"), ("*", "M", "V"): ("K.mul_vec", "V")},
+            pm_one=("K.has_pm_one",)),
+        range_contains_fn="Rd.range_contains",
+        imports=["Yuiv.Model.Res", "Yuiv.Model.RustArith", "Yuiv.Model.RustRing", "Yuiv.Model.RustDense",
+                 "Yuiv.Model.RustReducer"],
+        blurb=["The methods of `impl ChainReducer<I, R>` (yui-homology/src/utils/chain_reducer.rs) and the free functions",
+               "`pivots`, `reduce_mat_rows`, `reduce_mat_cols`.  The file is pure orchestration: the generated code is generic",
+               "over the types `M` (`SpMat<R>`), `V` (`SpVec<R>`), `T` (`Trans<R>`), `P` (`PermOwned`), `S` (`Schur<R>`) and",
+               "takes the record `K : ROps M V T P S` (Yuiv/Model/RustReducer.lean) of the operations of other files it calls",
+               "(each tied to its own model by fn:spmat / fn:spvec / fn:trans / fn:schur / fn:triang, the pivot finder by C11);",
+               "`I` is any type with `+`, `-`, decidable equality; `HashMap<I, X>` is the association list `HMap I X`;",
+               "`if let Some(x) = map.get_mut(&k) { … }` reads, updates and re-inserts the value; `for v in vs.iter_mut()` maps",
+               "over the list; `loop` takes fuel; panics are `Res.panic`.",
+               "`Yuiv/Props/C08GenR.lean` states what one `reduce_at_spec` step does to `mats` / `trans` / `vecs`."],
+        required=_req("ChainReducer", ("matrix", "trans", "vecs", "is_set", "is_done", "set_matrix", "deg_trip", "reduce_at_spec",
+                                       "update_trans", "update_mats", "update_vecs", "preferred_strategy", "reduce_at",
+                                       "reduce_all")) +
+                 [("chain_reducer", None, n) for n in ("pivots", "reduce_mat_rows", "reduce_mat_cols")]),
     "intext": dict(
         src=["/repo/yui/src/misc/int_ext.rs", "/repo/yui/src/abst/euc_ring.rs"], out="IntExtFn.lean",
         ns="Yuiv.GenIntExt", scalar="Z", macros=True, fuel_param=True,
@@ -489,6 +539,7 @@ NOOP_MACROS = {"trace", "debug", "info", "warn", "log::trace", "log::debug", "lo
 
 class Parser:
     turbofish = False     # accept (and ignore) `.method::<T>(..)`
+    mut_types = False     # accept `&mut T` inside types (erased; a function returning one is only usable as a place)
     features = set()      # enabled cargo features (none: every `cfg(feature = "..")` item / branch is dropped)
     const_generics = False      # target option: `const D: i32` parameters are value parameters
 
@@ -571,7 +622,9 @@ class Parser:
         while self.at("&") or self.at("&&"):
             self.next()
             if self.peek().kind == "life": self.next()
-            if self.eat("mut"): raise Unsupported(f"`&mut` type (line {self.peek().line})")
+            if self.eat("mut"):
+                if not Parser.mut_types: raise Unsupported(f"`&mut` type (line {self.peek().line})")
+                self.saw_mut_ty = True
         if self.at("("):
             self.next()
             if self.eat(")"): return "()"
@@ -1005,6 +1058,7 @@ class Parser:
             self.next()
             if self.at("mut"): raise Unsupported(f"`for mut` pattern (line {t.line})")
             tpat = None
+            self.eat("&")
             if self.at("("):                  # flat tuple pattern `for (i, a) in …`: `for it_ in … { let (i, a) = it_; … }`
                 self.next(); tpat = []
                 while not self.at(")"):
@@ -1482,7 +1536,9 @@ def parse_fn(p, tyname, trait, assoc, itps, ibounds, generic):
         if not p.eat(","): break
     p.expect(")")
     if p.eat("->"):
+        p.saw_mut_ty = False
         f.ret = p.ty()
+        f.ret_mut = bool(getattr(p, "saw_mut_ty", False))
     if p.eat("where"):
         f.bounds += p.where_clause()
     if p.eat(";"):
@@ -1739,6 +1795,14 @@ class Translator:
     def lean_ty(self, t):
         t = resolve_ty(t)
         if "?" in t: raise Unsupported("the element type of an empty `vec![]` is never determined")
+        if self.cfg.get("abs"):
+            ab = self.cfg["abs"]
+            if t in ab["lean"]: return ab["lean"][t]
+            if t in ab["extern_enums"]: return t
+            mm_ = re.fullmatch(r"MAP<(.*)>", t)
+            if mm_:
+                k_, v_ = split_top(mm_.group(1))
+                return f"(HMap {self.lean_ty(k_)} {self.lean_ty(v_)})"
         if t == "K13" and self.scalar == "K13": return "R"
         if t == "PM": return "(C13.SpMat R)"
         if t == "PV": return "(C13.SpVec R)"
@@ -1794,6 +1858,18 @@ class Translator:
             return "(" + ",".join([self.norm_ty(ma.group(1), fn)] * int(ma.group(2))) + ")"
         if re.fullmatch(r"M<\w+,\w+>", t): return t
         if self.cfg.get("nat_usize") and t == "usize": return "usize"
+        if self.cfg.get("abs"):
+            ab = self.cfg["abs"]
+            if t in ab["lean"] or t in ab["extern_enums"]: return t
+            for rx, tag in ab["types"]:
+                if re.fullmatch(rx, t): return tag
+            if t in ab.get("degree_params", []): return t
+            mv_ = re.fullmatch(r"Vec<(.+)>", t) or re.fullmatch(r"\[()([^;]+)\]", t)
+            if mv_: return "List<" + self.norm_ty(mv_.group(1) if mv_.group(1) else mv_.group(2), fn) + ">"
+            mh_ = re.fullmatch(r"HashMap<(.+)>", t)
+            if mh_:
+                k_, v_ = split_top(mh_.group(1))
+                return f"MAP<{self.norm_ty(k_, fn)},{self.norm_ty(v_, fn)}>"
         if self.cfg.get("sp13"):
             if t in ("PM", "PV", "PP", "CO", "RG", "K13") or t.startswith("FN<"): return t
             if re.sub(r"<'\w+>$", "", t) in ("PermView", "sprs::PermView", "PermOwned", "sprs::PermOwned"): return "PP"
@@ -2091,6 +2167,7 @@ class Translator:
         with the target option scalar = "Z" — parameters bounded by ring / integer traits only, read as `Int`"""
         self.tvars, self.aliases, self.convs = [], {}, {}
         scal = set()
+        f_orig = f
         if self.scalar:
             for tp in f.tparams:
                 bs = [re.sub(r"<.*$", "", b) for t, b in f.bounds if t == tp and not b.startswith("'")]
@@ -2100,6 +2177,10 @@ class Translator:
                     scal.add(tp)
         tparams = [t for t in f.tparams if t not in scal]
         bounds = [(t, b) for t, b in f.bounds if t not in scal]
+        if self.cfg.get("abs"):
+            dps = self.cfg["abs"].get("degree_params", [])
+            tparams = [t for t in tparams if t not in dps]
+            bounds = [(t, b) for t, b in bounds if t not in dps]
         for tp in scal: self.aliases[tp] = self.scalar
         if getattr(f, "ty", None) in self.cfg.get("scalar_types", []): self.aliases["Self"] = "Z"
         if self.cfg.get("sp13"):
@@ -2150,6 +2231,11 @@ class Translator:
         self.gargs = (["(m := m)", "(n := n)", "e"] + (["dbg"] if self.cfg.get("dbg_param") else [])
                       if self.cfg.get("eops") else []) + [n for n in self.convs.values()]
         if self.scalar == "K13" and scal: self.gargs = ["(R := R)"] + self.gargs
+        if self.cfg.get("abs"):
+            ab = self.cfg["abs"]
+            is_m = getattr(f_orig, "ty", None) in self.mod.structs
+            self.gsig = " ".join([ab["sig_struct"] if is_m else ab["sig_free"]] + ([self.gsig] if self.gsig else []))
+            self.gargs = (["(I := I)"] if is_m else []) + ["K"] + self.gargs
 
     def fresh(self):
         self.ntmp += 1
@@ -2624,8 +2710,11 @@ class Translator:
             if getattr(st, "els", None) is not None:
                 # `let Some(x) = e else { diverges }`; here the else block panics (a jumping one is handled by seq_k)
                 if not (ty.startswith("Option<") and ty != "Option<_>"): raise Unsupported(f"`let Some(..)` on {ty} (line {st.line})")
-                if not (st.els.tail is not None and st.els.tail.kind == "macro" and not st.els.stmts and
-                        st.els.tail.name in ("panic", "unreachable")):
+                els_ = st.els
+                if els_.tail is None and len(els_.stmts) == 1 and els_.stmts[0].kind == "expr" and els_.stmts[0].e.kind == "macro":
+                    els_ = N("block", stmts=[], tail=els_.stmts[0].e, uses=[], fns=[])
+                if not (els_.tail is not None and els_.tail.kind == "macro" and not els_.stmts and
+                        els_.tail.name in ("panic", "unreachable")):
                     raise Unsupported(f"`let … else` whose else block is not a `panic!` (line {st.line})")
                 ln = self.ident(st.name)
                 env[st.name] = (ln, ty[7:-1], False)
@@ -2633,6 +2722,9 @@ class Translator:
             return self.bind_pattern(st, its, term, ty, env)
         e = st.e
         while e.kind == "paren": e = e.e
+        if self.cfg.get("abs"):
+            r_ = self.tr_stmt_abs(e, env)
+            if r_ is not None: return r_
         if e.kind == "assign":
             return self.tr_assign(e, env)
         if e.kind == "if":
@@ -2749,6 +2841,119 @@ class Translator:
             if n.kind == "field": out.append(n)
         self.walk(nodes, f_)
         return out
+
+    def abs_getmut(self, sc, env):
+        """`x.F.get_mut(&k)` or `x.m(k)` with `fn m(&mut self, i) -> Option<&mut _> { self.F.get_mut(&i) }`:
+        (root variable, field, key expression) or None"""
+        while sc.kind == "paren": sc = sc.e
+        if sc.kind != "mcall": return None
+        r = sc.recv
+        while r.kind == "paren": r = r.e
+        if sc.name == "get_mut" and len(sc.args) == 1 and r.kind == "field" and r.e.kind == "path" and len(r.e.segs) == 1 \
+                and r.e.segs[0] in env and env[r.e.segs[0]][2] and env[r.e.segs[0]][1] in self.mod.structs:
+            k = sc.args[0]
+            while k.kind in ("paren",) or (k.kind == "un" and k.op == "&"): k = k.e
+            return r.e.segs[0], r.name, k
+        if r.kind == "path" and len(r.segs) == 1 and r.segs[0] in env and env[r.segs[0]][2] and env[r.segs[0]][1] in self.mod.structs:
+            c = self.find_fn(env[r.segs[0]][1], sc.name, None)
+            if c is not None and getattr(c, "ret_mut", False) and c.selfk == "mut" and len(c.params) == 1 and len(sc.args) == 1:
+                body = Parser(list(c.toks), c.body[0], c.body[1]).block()
+                t_ = body.tail
+                if not body.stmts and t_ is not None and t_.kind == "mcall" and t_.name == "get_mut" and len(t_.args) == 1 and \
+                        t_.recv.kind == "field" and t_.recv.e.kind == "path" and t_.recv.e.segs == ["self"]:
+                    k = t_.args[0]
+                    while k.kind in ("paren",) or (k.kind == "un" and k.op == "&"): k = k.e
+                    if k.kind == "path" and k.segs == [c.params[0][0]]:
+                        return r.segs[0], t_.recv.name, sc.args[0]
+        return None
+
+    def tr_stmt_abs(self, e, env):
+        """statements of target option `abs`: map insertion, in-place update of a map entry, mutating methods of the
+        abstract types, `for v in vs.iter_mut()`"""
+        ab = self.cfg["abs"]
+        line = getattr(e, "line", 0)
+        if e.kind == "mcall" and e.name == "insert" and len(e.args) == 2:
+            r = e.recv
+            while r.kind == "paren": r = r.e
+            if r.kind == "field" and r.e.kind == "path" and len(r.e.segs) == 1 and r.e.segs[0] in env and env[r.e.segs[0]][2] \
+                    and env[r.e.segs[0]][1] in self.mod.structs:
+                ln, sty, _ = env[r.e.segs[0]]
+                fty = self.field_ty(sty, r.name, line)
+                if fty.startswith("MAP<"):
+                    kt, vt = split_top(fty[4:-1])
+                    i1, k_, tk = self.tr(e.args[0], env)
+                    i2, v_, tv = self.tr(e.args[1], env)
+                    if not (self.compat(kt, tk) and self.compat(vt, tv)): raise Unsupported(f"`insert` of ({tk}, {tv}) into {fty} (line {line})")
+                    return i1 + i2 + [("let", ln, f"{{ {ln} with {r.name} := HMap.insert {ln}.{r.name} {k_} {v_} }}")]
+        if e.kind == "mcall" and len(e.args) == 1:
+            r = e.recv
+            while r.kind == "paren": r = r.e
+            if r.kind == "path" and len(r.segs) == 1 and r.segs[0] in env and env[r.segs[0]][2] and \
+                    (env[r.segs[0]][1], e.name, 1) in ab["mut_methods"]:
+                fld, ptys = ab["mut_methods"][(env[r.segs[0]][1], e.name, 1)]
+                ln = env[r.segs[0]][0]
+                its, ts = self.abs_args(e.args, ptys, env, f".{e.name}", line)
+                return its + [("bind", ln, " ".join([fld, ln] + ts))]
+        if e.kind == "iflet" and e.el is None:
+            gm = self.abs_getmut(e.s, env)
+            if gm is not None:
+                root, field, kexp = gm
+                ln, sty, _ = env[root]
+                fty = self.field_ty(sty, field, line)
+                if not fty.startswith("MAP<"): raise Unsupported(f"`get_mut` on a field of type {fty} (line {line})")
+                kt, vt = split_top(fty[4:-1])
+                if self.has_jump(e.th): raise Unsupported(f"jump inside `if let … get_mut()` (line {line})")
+                mv = [x for x in self.mutated(e.th, env) if x != e.var]
+                if mv: raise Unsupported(f"`if let … get_mut()` body assigns {', '.join(mv)} (line {line})")
+                i1, k_, tk = self.tr(kexp, env)
+                if not self.compat(kt, tk): raise Unsupported(f"`get_mut` with a key of type {tk} (line {line})")
+                if not re.fullmatch(r"[\w.]+", k_):
+                    r0 = self.fresh(); i1 = i1 + [("let", r0, k_)]; k_ = r0
+                cur = self.fresh()
+                v = self.ident(e.var)
+                env2 = dict(env)
+                env2[e.var] = (v, vt, True)
+                body = self.tr_block(e.th, env2, ("vars", [e.var]))
+                k2, t2 = body.final
+                items = [("bind", v, f"Opt.unwrap {cur}")] + list(body.items)
+                if k2 != "pure":
+                    r2 = self.fresh(); items.append(("bind", r2, t2)); t2 = r2
+                th = Code(items, ("pure", f"{{ {ln} with {field} := HMap.insert {ln}.{field} {k_} {unpar(t2)} }}"))
+                return i1 + [("let", cur, f"HMap.get {ln}.{field} {k_}"),
+                             ("bind", ln, IfTerm(f"Option.isSome {cur}", th, Code([], ("pure", ln))))]
+        if e.kind == "for":
+            it = e.it
+            while it.kind == "paren": it = it.e
+            if it.kind == "mcall" and it.name == "iter_mut" and not it.args:
+                root = self.vec_place(it.recv, env)
+                if root is None: raise Unsupported(f"`iter_mut()` on this kind of place (line {line})")
+                if self.has_jump(e.body): raise Unsupported(f"jump inside a `for … in x.iter_mut()` loop (line {line})")
+                ln, lty, _ = env[root]
+                elt = resolve_ty(lty)[5:-1]
+                mv = [x for x in self.mutated(e.body, env) if x != e.var]
+                if mv: raise Unsupported(f"`for … in x.iter_mut()` body assigns {', '.join(mv)} (line {line})")
+                used = self.used(e.body, env)
+                ro = [n_ for n_ in env if n_ in used and n_ != e.var and n_ != root]
+                self.nloop += 1
+                fname = f"{self.lean_fn(self.cur)}_each{self.nloop}"
+                env2 = dict(env)
+                lv = self.ident(e.var)
+                env2[e.var] = (lv, elt, True)
+                saved_fuel = self.uses_fuel
+                self.uses_fuel = False
+                body = self.tr_block(e.body, env2, ("vars", [e.var]))
+                fuel_here = self.uses_fuel
+                self.uses_fuel = saved_fuel or fuel_here
+                csig = " ".join(([self.gsig] if self.gsig else []) + (["(fuel : Nat)"] if fuel_here else []) +
+                                [f"({env[x][0]} : {unpar(self.lean_ty(env[x][1]))})" for x in ro] +
+                                [f"({lv} : {unpar(self.lean_ty(elt))})"])
+                lines = [f"/-- body of the `for … in {root}.iter_mut()` loop #{self.nloop} of `{self.cur.rust_name}`: the new element -/",
+                         f"def {fname} {csig} : Res {self.lean_ty(elt)} :="]
+                lines += self.body_lines(body, "  ", True)
+                self.aux.append("\n".join(lines) + "\n")
+                fcall = "(" + " ".join([fname] + self.gargs + (["fuel"] if fuel_here else []) + [env[x][0] for x in ro]) + ")"
+                return [("bind", ln, f"Iter.mapM {fcall} {ln}")]
+        return None
 
     def tr_vec_stmt(self, e, env):
         """`v.push(x)`, `v.reverse()` on a list variable; `it.for_each(|p| body)` as a `for` loop"""
@@ -3105,6 +3310,8 @@ class Translator:
             root, field = e.e.segs[0], e.name
         elif e.kind == "un" and e.op == "*" and e.e.kind == "path" and e.e.segs == ["self"]:
             root, field = "self", None
+        elif e.kind == "un" and e.op == "*" and e.e.kind == "path" and len(e.e.segs) == 1 and self.cfg.get("abs"):
+            root, field = e.e.segs[0], None
         else:
             raise Unsupported(f"assignment to this kind of place (line {lhs.line})")
         if root not in env: raise Unsupported(f"assignment to unknown variable `{root}` (line {lhs.line})")
@@ -3244,10 +3451,12 @@ class Translator:
                 if t == "i32" and self.cfg.get("int32"): return "W"
                 if t in BADINT: raise Unsupported(f"field {field}: type {t}")
                 if t in self.mod.stparams.get(sty, []):
+                    if self.cfg.get("abs") and t in self.cfg["abs"].get("degree_params", []): return t
                     if self.scalar: return "Z"
                     raise Unsupported(f"field {field} of generic type {t}")
                 if self.cfg.get("struct_params"):
                     for tp in self.mod.stparams.get(sty, []):
+                        if self.cfg.get("abs") and tp in self.cfg["abs"].get("degree_params", []): continue
                         t = re.sub(r"(?<![\w])" + re.escape(tp) + r"(?![\w])", self.scalar, t)
                     return self.norm_ty(t, self.cur)
                 return t
@@ -3411,16 +3620,29 @@ class Translator:
         pat = self.tup(env, st)
         lv = "_" if e.var == "_" else self.ident(e.var)
         if e.var != "_": env2[e.var] = (lv, m.group(1), False)
-        body = self.tr_block(e.body, env2, ("loop", " ".join([fname] + self.gargs + ["xs"]), ro, st))
+        saved_fuel_ = self.uses_fuel
+        self.uses_fuel = False
+        body = self.tr_block(e.body, env2, ("loop", " ".join([fname] + self.gargs + ["<FUEL>", "xs"]), ro, st))
+        fuel_here_ = self.uses_fuel
+        self.uses_fuel = saved_fuel_ or fuel_here_
+
+        def fix_(x):
+            if isinstance(x, str): return x.replace("<FUEL> ", "fuel " if fuel_here_ else "")
+            if isinstance(x, Code): return Code([(k_, p_, fix_(t_)) for k_, p_, t_ in x.items], (x.final[0], fix_(x.final[1])) if x.final else x.final)
+            if isinstance(x, IfTerm): return IfTerm(x.cond, fix_(x.th), fix_(x.el))
+            if isinstance(x, Blk): return Blk(fix_(x.code))
+            return x
+        body = fix_(body)
         sig = " ".join([f"({env[n][0]} : {unpar(self.lean_ty(env[n][1]))})" for n in ro + st])
         rty = " × ".join(self.lean_ty(env[n][1]) for n in st) if st else "Unit"
         rty = f"({rty})" if len(st) > 1 else rty
         lines = [f"/-- the `for` loop #{self.nloop} of `{self.cur.rust_name}` over the items `xs` (state: {', '.join(st) or 'none'}) -/",
-                 f"def {fname} " + (self.gsig + " " if self.gsig else "") + f"(xs : {unpar(self.lean_ty(ity))})" + (" " + sig if sig else "") + f" : Res {rty} :=",
+                 f"def {fname} " + (self.gsig + " " if self.gsig else "") + ("(fuel : Nat) " if fuel_here_ else "") +
+                 f"(xs : {unpar(self.lean_ty(ity))})" + (" " + sig if sig else "") + f" : Res {rty} :=",
                  "  match xs with", f"  | [] => Res.ok {pat}", f"  | {lv} :: xs =>"]
         lines += self.body_lines(body, "    ", True)
         self.aux.append("\n".join(lines) + "\n")
-        call = " ".join([fname] + self.gargs + [it] + [env[n][0] for n in ro + st])
+        call = " ".join([fname] + self.gargs + (["fuel"] if fuel_here_ else []) + [it] + [env[n][0] for n in ro + st])
         return its + [("bind", pat if st else "_", call)]
 
     def tr_mut_call(self, e, callee, env):
@@ -3508,6 +3730,22 @@ class Translator:
                     ty_ = env[root][1]
                     if n.kind == "iflet" or ty_ in ("LM",) or re.fullmatch(r"M<\w+,\w+>", ty_ or "") or ty_ in self.mod.structs:
                         found.add(root)
+            if self.cfg.get("abs"):
+                ab_ = self.cfg["abs"]
+                if n.kind == "mcall":
+                    r = n.recv
+                    while r.kind == "paren": r = r.e
+                    if r.kind == "path" and len(r.segs) == 1 and r.segs[0] in env and r.segs[0] not in local and env[r.segs[0]][2] \
+                            and (env[r.segs[0]][1], n.name, len(n.args)) in ab_["mut_methods"]:
+                        found.add(r.segs[0])
+                    if n.name == "insert" and r.kind == "field" and r.e.kind == "path" and len(r.e.segs) == 1 and \
+                            r.e.segs[0] in env and r.e.segs[0] not in local and env[r.e.segs[0]][2]:
+                        found.add(r.e.segs[0])
+                    if n.name == "iter_mut" and r.kind == "path" and len(r.segs) == 1 and r.segs[0] in env and \
+                            r.segs[0] not in local and env[r.segs[0]][2]:
+                        found.add(r.segs[0])
+                    gm_ = self.abs_getmut(n, {k: v for k, v in env.items() if k not in local})
+                    if gm_ is not None: found.add(gm_[0])
             if n.kind == "mcall" and n.name == "extend_cols" and self.cfg.get("cscx"):
                 r = n.recv
                 while r.kind == "paren": r = r.e
@@ -3701,6 +3939,8 @@ class Translator:
 
     def fuel_arg(self, info):
         out = list(self.gargs) if self.cfg.get("eops") else []
+        if self.cfg.get("abs"):
+            out = (["(I := I)"] if info["fn"].ty in self.mod.structs else []) + ["K"]
         for nm in info.get("opaque", []):
             if nm not in self.uses_opaque: self.uses_opaque.append(nm)
             out.append(nm)
@@ -3905,6 +4145,16 @@ class Translator:
 
     def binop(self, op, a, ta, b, tb, line):
         """items, term, type of `a op b` for already translated pure operands"""
+        if self.cfg.get("abs"):
+            ab = self.cfg["abs"]
+            if ta == tb and ta in ab.get("degree_params", []) and op in ("+", "-"):
+                return [], f"({a} {op} {b})", ta
+            if ta == tb and ta in ab.get("degree_params", []) and op in ("==", "!="):
+                return [], f"(decide ({a} {'=' if op == '==' else '≠'} {b}))", "bool"
+            if (op, ta, tb) in ab["binops"]:
+                fld, rt = ab["binops"][(op, ta, tb)]
+                r = self.fresh()
+                return [("bind", r, f"{fld} {a} {b}")], r, rt
         if "S" in (ta, tb):
             if ta != tb: raise Unsupported(f"`{op}` on {ta}, {tb} (line {line})")
             fn_ = {"+": "add", "-": "sub", "*": "mul"}.get(op)
@@ -4302,6 +4552,21 @@ class Translator:
                 if ta != "HM" or tb != "HM": raise Unsupported(f"`Trans::new` on {ta}, {tb} (line {line})")
                 r = self.fresh()
                 return i1 + i2 + [("bind", r, f"HTrans.new {a} {b}")], r, "HT"
+        if self.cfg.get("abs"):
+            ab = self.cfg["abs"]
+            ent = None
+            if len(segs) == 2 and (segs[0], segs[1]) in ab["statics"]: ent = ab["statics"][(segs[0], segs[1])]
+            if len(segs) == 1 and segs[0] in ab["free"] and segs[0] not in env: ent = ab["free"][segs[0]]
+            if ent is not None:
+                fld, ptys, rt, mon = ent
+                its, ts = self.abs_args(e.args, ptys, env, "::".join(segs), line)
+                call = " ".join([fld] + ts)
+                if mon:
+                    r = self.fresh()
+                    return its + [("bind", r, call)], r, rt
+                return its, f"({call})", rt
+            if segs == ["HashMap", "new"] and not e.args:
+                return [], "HMap.empty", "MAP<_>"
         if self.cfg.get("sp13"):
             r_ = self.tr_call_sp(e, env)
             if r_ is not None: return r_
@@ -4729,8 +4994,104 @@ class Translator:
                 return i1, "(List.all " + recv + " (" + " ".join([cname] + cargs) + "))", "bool"
         return None
 
+    def abs_args(self, args, ptys, env, what, line):
+        its, ts = [], []
+        if len(args) != len(ptys): raise Unsupported(f"`{what}` with {len(args)} arguments (line {line})")
+        for a, pt in zip(args, ptys):
+            i2, t, ty = self.tr(a, env)
+            if ty == "int": ty = "usize"
+            if not self.compat(pt, resolve_ty(ty)): raise Unsupported(f"argument of type {ty} for `{what}` ({pt} expected) (line {line})")
+            its += i2; ts.append(t)
+        return its, ts
+
+    def tr_mcall_abs(self, e, env):
+        """method calls of target option `abs` (None: not handled here)"""
+        ab = self.cfg["abs"]
+        line, name, na = e.line, e.name, len(e.args)
+        if name == "contains" and na == 1:
+            rx = e.recv
+            while rx.kind == "paren": rx = rx.e
+            if rx.kind == "range":
+                i0, lo, tl = self.tr(rx.lo, env)
+                i1, hi, th = self.tr(rx.hi, env)
+                i2, a, ta = self.tr(e.args[0], env)
+                if not (tl in INT64 and th in INT64 and ta in INT64): raise Unsupported(f"`(a..b).contains` on {tl}, {th}, {ta} (line {line})")
+                return i0 + i1 + i2, f"({self.cfg['range_contains_fn']} ({lo}, {hi}) {a})", "bool"
+        if name == "any" and na == 1 and e.args[0].kind == "closure" and e.recv.kind == "mcall" and e.recv.name == "iter" \
+                and not e.recv.args and "pm_one" in ab:
+            c_ = e.args[0]
+            b_ = c_.body
+            while b_.kind == "paren": b_ = b_.e
+            if len(c_.params) == 1 and isinstance(c_.params[0], tuple) and len(c_.params[0]) == 3 and b_.kind == "mcall" and \
+                    b_.name == "is_pm_one" and not b_.args and b_.recv.kind == "path" and b_.recv.segs == [c_.params[0][2]]:
+                i0, m_, tm = self.tr(e.recv.recv, env)
+                if tm == "M": return i0, f"({ab['pm_one'][0]} {m_})", "bool"
+        i1, recv, rty = self.tr(e.recv, env)
+        rty = resolve_ty(rty)
+        if rty in self.mod.structs:
+            c = self.find_fn(rty, name, None)
+            if c is not None and getattr(c, "ret_mut", False):
+                raise Unsupported(f"`.{name}` returns a `&mut` reference: only usable in `if let Some(x) = …` (line {line})")
+            return None
+        if (rty, name, na) in ab["methods"]:
+            fld, ptys, rt, mon = ab["methods"][(rty, name, na)]
+            if fld is None: return i1, recv, rt
+            i2, ts = self.abs_args(e.args, ptys, env, f".{name}", line)
+            call = " ".join([fld, recv] + ts)
+            if mon:
+                r = self.fresh()
+                return i1 + i2 + [("bind", r, call)], r, rt
+            return i1 + i2, f"({call})", rt
+        if (rty, name) in ab["closure_methods"] and na == 2 and e.args[1].kind == "closure":
+            fld, shty, ptys, cret_want, rt = ab["closure_methods"][(rty, name)]
+            i2, sh, tsh = self.tr(e.args[0], env)
+            if tsh == "int": tsh = "usize"
+            if not self.compat(shty, tsh): raise Unsupported(f"`.{name}` with a first argument of type {tsh} (line {line})")
+            cname, cargs, cret, mon = self.closure_def(e.args[1], ptys, env)
+            if not self.compat(cret_want, cret): raise Unsupported(f"closure returning {cret} where {cret_want} is expected (line {line})")
+            call = " ".join([cname] + cargs)
+            if mon: ct = f"({call})"
+            else:
+                vs = [f"a{k_}" for k_ in range(len(ptys))]
+                ct = "(fun " + " ".join(vs) + f" => Res.ok ({call} " + " ".join(vs) + "))"
+            r = self.fresh()
+            return i1 + i2 + [("bind", r, f"{fld} {recv} {sh} {ct}")], r, rt
+        if rty == "M" and name == "shape" and na == 0:
+            return i1, f"(K.nrows {recv}, K.ncols {recv})", "(usize,usize)"
+        if rty.startswith("MAP<"):
+            kt, vt = split_top(rty[4:-1])
+            if name in ("get", "contains_key") and na == 1:
+                i2, k_, tk = self.tr(e.args[0], env)
+                if not self.compat(kt, tk): raise Unsupported(f"`.{name}` with a key of type {tk} (line {line})")
+                if name == "get": return i1 + i2, f"(HMap.get {recv} {k_})", f"Option<{vt}>"
+                return i1 + i2, f"(HMap.contains_key {recv} {k_})", "bool"
+        if rty == "bool" and name == "then" and na == 1 and e.args[0].kind == "closure" and not e.args[0].params:
+            body = self.tr_block(N("block", stmts=[], tail=e.args[0].body), env, ("value", None))
+            ty = self.last_ty
+            if self.simple(body): return i1, f"(if {recv} then some {body.final[1]} else none)", f"Option<{ty}>"
+            r = self.fresh()
+            th = Code(body.items, ("pure", f"(some {body.final[1]})")) if body.final[0] == "pure" and isinstance(body.final[1], str) else None
+            if th is None and body.final[0] == "m":
+                r2 = self.fresh()
+                th = Code(list(body.items) + [("bind", r2, body.final[1])], ("pure", f"(some {r2})"))
+            if th is None: raise Unsupported(f"`.then` with a closure of this form (line {line})")
+            return i1 + [("bind", r, IfTerm(recv, th, Code([], ("pure", "none"))))], r, f"Option<{ty}>"
+        if rty.startswith("List<"):
+            elt = rty[5:-1]
+            if name == "len" and na == 0: return i1, f"(List.length {recv})", "usize"
+            if name in ("iter", "into_iter", "clone", "cloned") and na == 0: return i1, recv, rty
+            if name == "all" and na == 1 and e.args[0].kind == "closure":
+                cname, cargs, cret, mon = self.closure_def(e.args[0], [elt], env)
+                if mon or cret != "bool": raise Unsupported(f"`.all` with a closure that can panic / returns {cret} (line {line})")
+                return i1, "(List.all " + recv + " (" + " ".join([cname] + cargs) + "))", "bool"
+        if rty.startswith("Option<") and name == "clone" and na == 0: return i1, recv, rty
+        return None
+
     def tr_mcall(self, e, env):
         line, name = e.line, e.name
+        if self.cfg.get("abs"):
+            r_ = self.tr_mcall_abs(e, env)
+            if r_ is not None: return r_
         if self.cfg.get("sp13") and name == "contains" and len(e.args) == 1:
             rx = e.recv
             while rx.kind == "paren": rx = rx.e
@@ -4952,18 +5313,26 @@ def generate(src_text, src_label, target="bitseq"):
     texts = src_text if isinstance(src_text, list) else [src_text]
     toks, allids, mod = None, set(), None
     Parser.const_generics = bool(cfg.get("const_generics"))
-    Parser.turbofish = bool(cfg.get("csc") or cfg.get("sp13"))
+    Parser.turbofish = bool(cfg.get("csc") or cfg.get("sp13") or cfg.get("abs"))
+    Parser.mut_types = bool(cfg.get("abs"))
     srcs = cfg["src"] if isinstance(cfg["src"], list) else [cfg["src"]]
     for k_, text in enumerate(texts):
         toks = tokenize(text)
         allids |= {t.val for t in toks if t.kind == "id"}
         stem = os.path.splitext(os.path.basename(srcs[k_]))[0] if cfg.get("free_fns") else None
         mod = parse_items(toks, mod, cfg["macros"], 0, stem)
+    extern_enums = set()
+    if cfg.get("abs"):
+        for en, vs in cfg["abs"]["extern_enums"].items():
+            mod.enums[en] = [(v, None) for v in vs]
+            mod.derives[en] = ["PartialEq", "Eq", "Clone", "Copy"]
+            extern_enums.add(en)
     tr = Translator(mod, toks, allids, cfg)
     tr.cur = Fn()
     parts = []
     # enums
     for name in sorted(mod.enums):
+        if name in extern_enums: continue
         vs = mod.enums[name]
         lines = [f"/-- `enum {name}` -/", f"inductive {name} where"] + [f"  | {v}" for v, _ in vs] + ["deriving DecidableEq, Repr, Inhabited"]
         disc, nxt = [], 0
